@@ -1144,3 +1144,9 @@ B('FF-target-wins', ['C07', 'C11', 'C06'], 'util.py', 'full_for_fill',
   '        dtype_final = resolve_dtype(dtype, dtype_element)\n', '        dtype_final = dtype\n', 'F1.full-for-fill-resolves', 'full_for_fill')
 N('FF-swapped-operands', ['C07', 'C11', 'C06'], 'util.py', 'full_for_fill',
   '        dtype_final = resolve_dtype(dtype, dtype_element)\n', '        dtype_final = resolve_dtype(dtype_element, dtype)\n')
+
+# ---------------------------------------------------------------------------------- descending positional slices (C08)
+B('DS-negative-bounds-raw', ['C08'], 'util.py', 'slice_to_ascending_slice',
+  '    if (key.start is not None and key.start < 0) or (key.stop is not None and key.stop < 0):', '    if False:', 'I.descending-slice-normalised', 'slice_to_ascending_slice')
+B('DS-only-start-normalised', ['C08'], 'util.py', 'slice_to_ascending_slice',
+  '    if (key.start is not None and key.start < 0) or (key.stop is not None and key.stop < 0):', '    if key.start is not None and key.start < 0:', 'I.descending-slice-normalised', 'slice_to_ascending_slice')
